@@ -20,8 +20,17 @@ echo "demo without patch: rc=$RC_C"
 if [ "$PASSED" = "87" ] && [ $RC_P -ne 0 ] && [ $RC_C -eq 0 ]; then
   mkdir -p $OUT
   cp $M/patch$N.diff $OUT/patch.diff
-  HELPERS=$(ls $M/*.sh 2>/dev/null | grep -v "/run[0-9]*\.sh$")
-  for f in $M/demo$N.* $M/demo${N}_* $M/run$N.sh $M/notes$N.md $M/*.h $M/*.py $M/*.inc $M/*.hpp $HELPERS; do [ -f "$f" ] && [ $(stat -c %s "$f") -lt 400000 ] && cp "$f" $OUT/; done
+  for f in $M/*; do
+    [ -f "$f" ] || continue
+    b=$(basename "$f")
+    case "$b" in
+      patch[0-9]*.diff|demo[0-9]*|run[0-9]*.sh|notes[0-9]*.md|out[0-9]*) case "$b" in patch$N.diff|demo$N.*|demo${N}_*|run$N.sh|notes$N.md) ;; *) continue;; esac;;
+    esac
+    [ "$b" = "patch$N.diff" ] && continue
+    [ $(stat -c %s "$f") -lt 400000 ] || continue
+    file -b "$f" | grep -q "ELF" && continue
+    cp -L "$f" $OUT/
+  done
   tail -5 $ROOT/run-$ID-$N-patched.out > $OUT/demo_output_patched.txt
   python3 - <<PY
 import json
